@@ -642,6 +642,15 @@ def comprehension(eng, node, fr, kind):
     it = eng.eval(g.iter, fr)
     if isinstance(it, SV) and isinstance(it.sort, Opt):
         it = eng.deref(it, "TypeError", node.lineno)
+    if isinstance(it, SV) and isinstance(it.sort, Ref) and it.sort.cls not in eng.spec.iterator_models:
+        # [.. for x in obj ..] iterates type(obj).__iter__(obj) (python data model) - as the for statement does (loops.make_iter_source):
+        # the __iter__ member is executed through its contract / inline permission; iter(seq) stands for seq
+        mem = eng.repo.lookup_member(it.sort.cls, "__iter__")
+        if mem:
+            kind_, ci, n_ = mem
+            it = eng.call_function(ci.module, ci, n_, [it], {}, node.lineno, "%s::%s.__iter__" % (ci.module.relpath, ci.name))
+    if isinstance(it, PyVal) and it.kind == "iter":
+        it = it.of
     conc = None
     if isinstance(it, PyVal) and it.kind in ("list", "tuple", "set"):
         conc = it.items
@@ -686,15 +695,18 @@ def symbolic_comprehension(eng, node, g, lv, fr, kind):
     i = bvar("ci")
     fr2 = E.Frame(fr.module, fr.cls, fr.func, dict(fr.locals))
     saved_mode = eng.spec_mode
+    saved_ub = eng.under_binder
     eng.spec_mode = True  # element expressions must be pure (no forking)
+    eng.under_binder = True
     try:
         x = eng.list_get(lv.t, elem, i)
         eng.assign(g.target, x, fr2, node.lineno)
-        conds = [eng.truth(eng.eval(c, fr2)) for c in g.ifs]
+        conds = [eng.spec_truth(c, fr2) for c in g.ifs]
         cond = bm.and_(*conds)
         ev = eng.eval(node.elt, fr2)
     finally:
         eng.spec_mode = saved_mode
+        eng.under_binder = saved_ub
     if isinstance(ev, PyVal):
         raise EngineLimit("comprehension element is a python-level value")
     rs = ev.sort
